@@ -94,9 +94,39 @@ def main(pid, argv):
                 pre = stream[:k]
                 lines.append("%d %s {} %d %s" % (rng.choice([0, 1]), b"a.b.M".hex(), len(frames) + 1, ",".join(c.hex() for c in S.segment(rng, pre)) or "-"))
                 metas.append(("stream", frames, pre))
+    # the same reply streams once more for a caller that passes no out value (what generated stubs do for methods without out parameters)
+    import re as _re
+    nil_lines = [("nil:" + l, l) for l, m in list(zip(lines, metas)) if m is not None and m[0] == "stream"][:: (1 if thorough else 4)]
+    nil_impl = C.run_sharded([bins["h_cli"]], [a for a, _ in nil_lines]) if nil_lines else []
+    nil_model = V.run_model_parallel("cli-run", [b for _, b in nil_lines]) if nil_lines else []
+    for (a, _), il, ml in zip(nil_lines, nil_impl, nil_model):
+        ck.evaluations += 1
+        ck.count("nil-out")
+        want = _re.sub(r"recv=ok (\d+) \S+", r"recv=ok \1 -", ml)
+        if il != want:
+            ck.fail("client-receive-nil-out", a, "with no out value passed, receive must report the same frames, flags and errors (parameters aside): got %s, with an out value %s"
+                    % (il[:300], ml[:300]), impl=il[:600], model=ml[:600])
+    # several calls of one method on one connection with different flags: each call's bytes are those of the same call on a fresh connection
+    seqs = []
+    for _ in range(0 if ck.replay else (200 if thorough else 30)):
+        fls = [rng.choice([0, 1, 2, 8, 0, 3, 9, 10]) for _ in range(rng.choice([2, 3, 5]))]
+        seqs.append((b"a.b.M", fls))
+    seq_impl = C.run_sharded([bins["h_cli"]], ["seq %s %s" % (m.hex(), ",".join(map(str, f))) for m, f in seqs]) if seqs else []
+    single = sorted({(m, fl) for m, f in seqs for fl in f})
+    single_model = dict(zip(single, V.run_model("cli-run", ["%d %s - 0 -" % (fl, m.hex()) for m, fl in single]))) if single else {}
+    for (m, fls), il in zip(seqs, seq_impl):
+        ck.evaluations += 1
+        ck.count("flag-sequences")
+        want = []
+        for fl in fls:
+            o = single_model[(m, fl)]
+            want.append(o.split("wrote=")[1].split()[0] if o.startswith("send=ok") else "refused")
+        if il != "seq " + "|".join(want):
+            ck.fail("client-flag-sequence", "seq %s %s" % (m.hex(), fls), "calls of one method on one connection with flags %s: the bytes written differ from those of the same calls on fresh connections: %s vs %s"
+                    % (fls, il[:300], "|".join(want)[:300]), impl=il[:600])
     impl = C.run_sharded([bins["h_cli"]], lines)
     model = V.run_model_parallel("cli-run", lines)
-    ck.evaluations = len(lines)
+    ck.evaluations += len(lines)
     nf = 0
     for line, meta, il, ml in zip(lines, metas, impl, model):
         bad = None
